@@ -708,8 +708,7 @@ fn render_svg(args: &Args, tree: &usvg::Tree) -> Result<tiny_skia::Pixmap, Strin
 
             resvg::render_node(node, ts, &mut pixmap.as_mut());
 
-            // Unwrap is safe, because `size` is already valid.
-            let mut page_pixmap = tiny_skia::Pixmap::new(size.width(), size.height()).unwrap();
+                let mut page_pixmap = new_pixmap(size)?;
 
             if let Some(background) = args.background {
                 page_pixmap.fill(svg_to_skia_color(background));
@@ -725,8 +724,7 @@ fn render_svg(args: &Args, tree: &usvg::Tree) -> Result<tiny_skia::Pixmap, Strin
             );
             page_pixmap
         } else {
-            // Unwrap is safe, because `size` is already valid.
-            let mut pixmap = tiny_skia::Pixmap::new(size.width(), size.height()).unwrap();
+            let mut pixmap = new_pixmap(size)?;
 
             if let Some(background) = args.background {
                 pixmap.fill(svg_to_skia_color(background));
@@ -741,8 +739,7 @@ fn render_svg(args: &Args, tree: &usvg::Tree) -> Result<tiny_skia::Pixmap, Strin
             .fit_to_size(tree.size().to_int_size())
             .ok_or_else(|| "target size is zero".to_string())?;
 
-        // Unwrap is safe, because `size` is already valid.
-        let mut pixmap = tiny_skia::Pixmap::new(size.width(), size.height()).unwrap();
+        let mut pixmap = new_pixmap(size)?;
 
         if let Some(background) = args.background {
             pixmap.fill(svg_to_skia_color(background));
@@ -767,6 +764,22 @@ fn render_svg(args: &Args, tree: &usvg::Tree) -> Result<tiny_skia::Pixmap, Strin
     Ok(img)
 }
 
+/// Creates an image of the requested size, if there is enough memory for it.
+fn new_pixmap(size: tiny_skia::IntSize) -> Result<tiny_skia::Pixmap, String> {
+    let too_large = || format!("target size {}x{} is too large", size.width(), size.height());
+
+    let len = (size.width() as usize)
+        .checked_mul(size.height() as usize)
+        .and_then(|n| n.checked_mul(tiny_skia::BYTES_PER_PIXEL))
+        .ok_or_else(too_large)?;
+
+    let mut data: Vec<u8> = Vec::new();
+    data.try_reserve_exact(len).map_err(|_| too_large())?;
+    data.resize(len, 0);
+
+    tiny_skia::Pixmap::from_vec(data, size).ok_or_else(too_large)
+}
+
 fn trim_pixmap(
     tree: &usvg::Tree,
     transform: tiny_skia::Transform,
@@ -777,7 +790,8 @@ fn trim_pixmap(
     let limit = tiny_skia::IntRect::from_xywh(0, 0, pixmap.width(), pixmap.height()).unwrap();
 
     let content_area = content_area.transform(transform)?.to_int_rect();
-    let content_area = fit_to_rect(content_area, limit);
+    // Nothing to trim to when the whole drawing is outside of the page.
+    let content_area = fit_to_rect(content_area, limit)?;
     let content_area = tiny_skia::IntRect::from_xywh(
         content_area.x(),
         content_area.y(),
@@ -789,7 +803,10 @@ fn trim_pixmap(
 }
 
 /// Fits the current rect into the specified bounds.
-fn fit_to_rect(r: tiny_skia::IntRect, bounds: tiny_skia::IntRect) -> tiny_skia::IntRect {
+fn fit_to_rect(
+    r: tiny_skia::IntRect,
+    bounds: tiny_skia::IntRect,
+) -> Option<tiny_skia::IntRect> {
     let mut left = r.left();
     if left < bounds.left() {
         left = bounds.left();
@@ -810,7 +827,7 @@ fn fit_to_rect(r: tiny_skia::IntRect, bounds: tiny_skia::IntRect) -> tiny_skia::
         bottom = bounds.bottom();
     }
 
-    tiny_skia::IntRect::from_ltrb(left, top, right, bottom).unwrap()
+    tiny_skia::IntRect::from_ltrb(left, top, right, bottom)
 }
 
 fn svg_to_skia_color(color: svgtypes::Color) -> tiny_skia::Color {
